@@ -1,5 +1,17 @@
-"""dispatch for multiplication/square generators (filled in by c08)"""
+"""dispatch for multiplication/square generators"""
 
 
 def call(c, name, a):
+    from cirbo.synthesis.generation.arithmetics import multiplication as M, square as SQ
+    be = {'big_endian': bool(a.get('big_endian', False))}
+    muls = {'add_mul': M.add_mul, 'add_mul_alter': M.add_mul_alter, 'add_mul_pow2_m1': M.add_mul_pow2_m1,
+            'add_mul_karatsuba': M.add_mul_karatsuba,
+            'add_mul_karatsuba_with_efficient_sum': M.add_mul_karatsuba_with_efficient_sum,
+            'add_mul_dadda': M.add_mul_dadda, 'add_mul_wallace': M.add_mul_wallace}
+    if name in muls:
+        return list(muls[name](c, a['a'], a['b'], **be))
+    if name == 'add_square':
+        return list(SQ.add_square(c, a['ins'], **be))
+    if name == 'add_square_pow2_m1':
+        return list(SQ.add_square_pow2_m1(c, a['ins'], **be))
     raise ValueError('unknown generator ' + name)
